@@ -620,7 +620,9 @@ func crashApu(c *Ctx, w *trace.Writer) {
 			for _, d := range dists {
 				for delay := 0; delay <= maxDelay; delay++ {
 					sc := &trace.Scenario{ID: fmt.Sprintf("crash-apu-ch%d-f%03x-%s-%d", ch+1, f, d.name, delay), Reset: map[string]any{"fam": "apu", "ch": ch, "f": f, "what": d.name, "delay": delay}}
-					m := machine.New(intROM, machine.Options{NoCPU: true})
+					// sample channels attached (every other delay): the mixer runs too. No NRx1 write and no power cycle before
+					// the first trigger: a channel must be usable straight from the power-on state.
+					m := machine.New(intROM, machine.Options{NoCPU: true, Audio: delay%2 == 0})
 					sc.Ev = append(sc.Ev, []any{"ctor", 1})
 					cycles := 0
 					perr := machine.Try(func() {
@@ -640,11 +642,13 @@ func crashApu(c *Ctx, w *trace.Writer) {
 						trig(m, ch, f)
 						for i := 0; i < delay; i++ {
 							m.Hardware()
+							m.Drain()
 							cycles++
 						}
 						d.do(m, ch, f)
 						for i := 0; i < 60; i++ {
 							m.Hardware()
+							m.Drain()
 							cycles++
 						}
 					})
